@@ -136,6 +136,7 @@ pub fn execute(case: &ProbeCase) -> RunResult {
         script: case.script.clone(),
         abort_on_cell_race: true,
         stretch: 1,
+        hold: None,
     };
     let exec = Exec::new(cfg, n);
     let locks: Arc<Vec<HalfLockProbe<Canary>>> = Arc::new((0..case.locks.max(1)).map(|_| HalfLockProbe::new(Canary::new())).collect());
